@@ -269,6 +269,19 @@ def show_list(sl):
     return ', '.join(show_complex(cx) for cx in sl)
 
 
+def uni_case(rnd, name):
+    """A spelling that only a NON-ASCII case mapping relates to `name` (Kelvin sign for k, long s for s, upper-case of a
+    non-ASCII letter): in HTML, names are compared ASCII case-insensitively, so these must not match."""
+    opts = []
+    if 'k' in name:
+        opts.append(name.replace('k', '\u212a', 1))
+    if 's' in name:
+        opts.append(name.replace('s', '\u017f', 1))
+    if any(ord(c) > 127 for c in name) and name.upper() != name:
+        opts.append(''.join(c.upper() if ord(c) > 127 else c for c in name))
+    return rnd.choice(opts) if opts else name.upper()
+
+
 class AGen:
     def __init__(self, rnd, names, classes, ids, attrs, values, texts=None, prefixes=None, feats=('core',), ascii_ci=True, langs=None, nsmap=None):
         self.r = rnd
@@ -283,7 +296,9 @@ class AGen:
         r = self.r
         name = r.choice(self.names) if r.random() < 0.75 else '*'
         if name != '*' and 'case' in self.feats and r.random() < 0.3:
-            name = r.choice([name.upper(), name.title(), name.swapcase()])
+            name = r.choice([name.upper(), name.title(), name.swapcase(), uni_case(r, name)])
+        if name != '*' and 'k' in name and r.random() < 0.25:
+            name = name.replace('k', '\u212a', 1)        # KELVIN SIGN: not an ASCII case variant of k, matches nothing
         pf = None
         if 'ns' in self.feats and r.random() < 0.55:
             pf = r.choice(self.prefixes + ['*', '', 'nope'])
@@ -292,8 +307,10 @@ class AGen:
     def attr(self):
         r = self.r
         name = r.choice(self.attrs)
+        if 'k' in name and r.random() < 0.2:
+            name = name.replace('k', '\u212a', 1)        # KELVIN SIGN: only a non-ASCII case mapping relates it to k
         if 'case' in self.feats and r.random() < 0.3:
-            name = r.choice([name.upper(), name.title()])
+            name = r.choice([name.upper(), name.title(), uni_case(r, name)])
         pf = None
         if 'ns' in self.feats and r.random() < 0.5:
             pf = r.choice(self.prefixes + ['*', '', 'nope'])
